@@ -499,10 +499,7 @@ impl RecordBuf {
     pub fn alignment_end(&self) -> Option<Position> {
         self.alignment_start()
             .and_then(|start| match self.alignment_span() {
-                Some(span) => {
-                    let end = usize::from(start) + span - 1;
-                    Position::new(end)
-                }
+                Some(span) => start.checked_add(span - 1),
                 None => Some(start),
             })
     }
